@@ -214,6 +214,7 @@ pub fn worker(property: &str, seed: u64, start: u64, end: u64, progress: &mut dy
             PlanResult::Violation(v, st) => {
                 absorb(&mut sum, &st, run, keep_digests);
                 if sum.violations.len() < 3 {
+                    progress(run | MINIMISING);
                     let (min, execs) = minimise(&plan, focus, &v.class, v.client);
                     let (v2, _) = match run_plan(&min, Some(focus), false, None) {
                         PlanResult::Violation(v2, st2) => (v2, st2),
